@@ -18,7 +18,7 @@ RULE = ("Histories of 1..60 steps on a real LDM (dictionary back-end, reactive s
         "live subscriptions, >= 1 notification and >= 1 unsubscribe/deregister followed by an attendance with matching data.")
 ASSUMPTIONS = [
     "before a subscription's first notification the interval counts from the subscription instant; an attendance earlier than that may or may not notify (no verdict)",
-    "identical requests share a subscription id (hash of the request): the model follows the returned ids",
+    "identical requests share a subscription id (hash of the request): the model follows the returned ids; the same request subscribed again with the same callback counts as further copies of one subscription (1..copies callbacks per attendance, none after its unsubscription)",
     "objects have long validity and lie outside the maintenance collection radius, so that maintenance does not interfere",
     "order verdict only when every notified object carries every order attribute",
 ]
@@ -47,7 +47,8 @@ def case_s():
     add = st.fixed_dictionaries({"op": st.just("add"), "obj": c13.obj_s()})
     attend = st.fixed_dictionaries({"op": st.just("attend")})
     adv = st.fixed_dictionaries({"op": st.just("adv"), "ms": st.sampled_from([0, 100, 499, 500, 999, 1000, 1001, 2000, 5000])})
-    op = st.one_of(sub_s(), sub_s(), sub_s(), add, add, add, add, attend, attend, attend, adv, adv, adv, unsub, dereg, reg)
+    dupsub = st.fixed_dictionaries({"op": st.just("dupsub"), "ref": st.integers(0, 9)})
+    op = st.one_of(sub_s(), sub_s(), sub_s(), add, add, add, add, attend, attend, attend, adv, adv, adv, unsub, dereg, reg, dupsub)
     pre = [{"op": "reg", "c": 2}, {"op": "reg", "c": 16}, {"op": "reg", "c": 3}]
     good_sub = sub_s().map(lambda d: dict(d, c=2 if d["c"] == 7 else d["c"], bad=None, types=["cam", "denm", "vam", "poi"] if d["f1"] is None else d["types"]))
     block = st.tuples(good_sub, st.lists(add, min_size=1, max_size=4), adv, st.sampled_from(["unsub", "dereg", "none", "none"]), st.lists(add, max_size=2), adv).map(
@@ -58,8 +59,12 @@ def case_s():
     block2 = st.tuples(st.sampled_from(CONSUMERS), st.lists(good_sub, min_size=2, max_size=4), st.lists(add, min_size=1, max_size=3), st.booleans(), st.sampled_from([0, 1000, 2000])).map(
         lambda t: [dict(x, c=t[0], notify_ms=x["notify_ms"] + 7 * i) for i, x in enumerate(t[1])] + t[2] + [{"op": "dereg", "c": t[0]}] + ([{"op": "reg", "c": t[0]}] if t[3] else [])
         + [{"op": "adv", "ms": t[4]}, {"op": "attend"}, {"op": "adv", "ms": 1000}, {"op": "attend"}])
+    # the very same request and callback subscribed twice (one identifier), then unsubscribed once
+    block3 = st.tuples(good_sub, st.lists(add, min_size=1, max_size=3), adv).map(
+        lambda t: [dict(t[0], notify_ms=0), {"op": "dupsub", "ref": 99}] + t[1] + [t[2], {"op": "attend"}, {"op": "unsub", "c": t[0]["c"], "ref": 99, "unknown": False}] + t[1][:1]
+        + [{"op": "adv", "ms": 1000}, {"op": "attend"}])
     single = op.map(lambda x: [x])
-    return st.lists(st.one_of(single, single, single, block, block2), min_size=3, max_size=30).map(lambda ll: {"ops": pre + [x for l in ll for x in l][:80]})
+    return st.lists(st.one_of(single, single, single, block, block2, block3), min_size=3, max_size=30).map(lambda ll: {"ops": pre + [x for l in ll for x in l][:80]})
 
 
 def run_case(case):
@@ -120,9 +125,11 @@ def run_case(case):
                 elif not s_["notified_once"]:
                     expected[i] = None          # before the first notification: no verdict
             got = {}
+            seen_n = {}
             for idx, resp in fired:
-                if idx in got:
-                    vs.append(violation(ID, "C14/callback-twice-in-one-attendance", "step %d (%s): subscription %d notified twice" % (step, why, idx)))
+                seen_n[idx] = seen_n.get(idx, 0) + 1
+                if seen_n[idx] > subs[idx].get("copies", 1):
+                    vs.append(violation(ID, "C14/callback-twice-in-one-attendance", "step %d (%s): subscription %d notified %d times (%d identical subscriptions)" % (step, why, idx, seen_n[idx], subs[idx].get("copies", 1))))
                 got[idx] = resp
             del fired[:]
             for idx, resp in got.items():
@@ -202,7 +209,9 @@ def run_case(case):
                     elif bad == "multiplicity":
                         mult = 256
                     idx = len(subs)
-                    r = ldm.if_ldm_4.subscribe_data_consumer(SubscribeDataobjectsReq(application_id=op["c"], data_object_type=types, priority=prio, filter=flt, notify_time=notify, multiplicity=mult, order=order), mk_cb(idx))
+                    req_obj = SubscribeDataobjectsReq(application_id=op["c"], data_object_type=types, priority=prio, filter=flt, notify_time=notify, multiplicity=mult, order=order)
+                    cb_obj = mk_cb(idx)
+                    r = ldm.if_ldm_4.subscribe_data_consumer(req_obj, cb_obj)
                     if op["c"] not in consumers:
                         want = SubscribeDataobjectsResult.INVALID_ITSA_ID
                     elif bad == "type":
@@ -219,15 +228,30 @@ def run_case(case):
                         vs.append(violation(ID, "C14/subscribe-result-wrong:%s" % want.name.lower(), "step %d: subscribe %r answered %s, expected %s" % (step, {kk: op[kk] for kk in ("c", "bad", "notify_ms", "mult")}, r.result, want)))
                     live = r.result == SubscribeDataobjectsResult.SUCCESSFUL
                     subs.append({"id": r.subscription_id, "c": op["c"], "q": q, "notify_ms": op["notify_ms"], "mult": mult, "last": now_its_trunc(), "notified_once": False,
-                                 "alive": live, "dead_why": "refusal"})
+                                 "alive": live, "dead_why": "refusal", "req": req_obj, "cb": cb_obj, "copies": 1})
                     if not live:
                         labels.add("refused-subscription")
+                elif k == "dupsub":
+                    live_subs = [s_ for s_ in subs if s_["alive"] and s_["c"] in consumers]
+                    if live_subs:
+                        s_ = live_subs[-1] if op["ref"] == 99 else live_subs[op["ref"] % len(live_subs)]
+                        r = ldm.if_ldm_4.subscribe_data_consumer(s_["req"], s_["cb"])      # same request object, same callback
+                        if r.result == SubscribeDataobjectsResult.SUCCESSFUL:
+                            if r.subscription_id != s_["id"]:
+                                vs.append(violation(ID, "C14/identical-request-different-id", "step %d: the identical request got id %r, first time %r" % (step, r.subscription_id, s_["id"])))
+                            s_["copies"] += 1
+                            # both copies share one bookkeeping entry, which the second subscription restarts: judged like a fresh subscription
+                            s_["last"] = now_its_trunc()
+                            s_["notified_once"] = False
+                            labels.add("identical-subscription-twice")
+                        else:
+                            vs.append(violation(ID, "C14/subscribe-result-wrong:successful", "step %d: repeating a live subscription's request answered %s" % (step, r.result)))
                 elif k == "unsub":
                     mine = [s_ for s_ in subs if s_["alive"] and s_["c"] == op["c"]]
                     if op["unknown"] or not mine:
                         sid = 123456789 + op["ref"]
                     else:
-                        sid = mine[op["ref"] % len(mine)]["id"]
+                        sid = (mine[-1] if op["ref"] == 99 else mine[op["ref"] % len(mine)])["id"]
                     r = ldm.if_ldm_4.unsubscribe_data_consumer(UnsubscribeDataConsumerReq(application_id=op["c"], subscription_id=sid))
                     hit = [s_ for s_ in subs if s_["alive"] and s_["id"] == sid]
                     ok = op["c"] in consumers and bool(hit)
